@@ -9,7 +9,7 @@ from ..astutil import call_name, is_self_attr, names_read
 from ..frontend import AnalysisError, FunctionInfo, dotted, norm, walk_local
 from ..paths import conds_on, paths, stmts_on
 from ..report import Ctx
-from .common import ALGORITHM, EVALUATOR, PROBLEM, TRACKER, per_individual_body, receiver_may_be
+from .common import ALGORITHM, EVALUATOR, PROBLEM, TRACKER, check_yields_all, per_individual_body, receiver_may_be
 
 LEVEL_TEXT = (
     "Static rules: (R1) path enumeration of the single-objective tracker's per-individual code: the stored best "
@@ -467,6 +467,11 @@ def run(ctx: Ctx) -> None:
     rule_r2(ctx)
     rule_r3(ctx)
     rule_r4(ctx)
+    ctx.rule("C12.R5", "every evaluator hands every presented individual (cached or not) back to the tracker")
+    impls = ctx.prog.implementations(EVALUATOR, "evaluate_async")
+    ctx.floor("C12.R5", len(impls), 2, "evaluate_async implementations")
+    for f in impls:
+        check_yields_all(ctx, "C12.R5", f)
     ctx.assumptions += [
         "recorders are informed only through ProgressTracker.evaluate (no other caller of SearchRecorder.register)",
         "floating-point NaN fitness values are outside the decided clause (comparisons with NaN are false)",
